@@ -2,6 +2,7 @@ import OV.Model.C05Order
 import OV.Model.C05Unit
 import OV.Model.C05Shape
 import OV.Model.C05Linalg
+import OV.Model.C05More
 import OV.Drivers.Loop
 /-! Line-protocol driver for C05: `C05 <family> key=value …` → `nofire` | `raise` | `fire <replacement> hyp=<0|1>`.
 `hyp` is the model's own side condition under which the `_sound`/`_partial` theorem of the family applies
@@ -234,12 +235,35 @@ def handle1 (args : List String) : String :=
        fireIf (Linalg.expandRemovableConst (getShape a "x") (getShape a "y") e)
          (getS a "attrs" != "1" && !preluBad)
      | none => "badline")
+  | "mmreshape" :: a =>
+    let p : More.MatmulReshape := { a := getShape a "a", b := getShape a "b", shapeC := getOptInts a "c", shapeCRank1 := getS a "c1" != "0" }
+    fireIf (More.matmulReshapeCheck p) true
+  | "gemm2mm" :: a =>
+    let core : More.MatmulReshape := { a := getShape a "a", b := getShape a "b", shapeC := getOptInts a "c", shapeCRank1 := getS a "c1" != "0" }
+    let p : More.GemmToMatmul := { core := core, alphaAttr := parseRat (getS a "alpha"), betaAttr := parseRat (getS a "beta"), transA := getBool a "ta", transB := getBool a "tb" }
+    fireIf (More.gemmToMatmulCheck p) (More.gemmToMatmulHyp p)
+  | "hardsig" :: a =>
+    let p : More.HardSig := { clipMin := parseRat (getS a "cmin"), clipMax := parseRat (getS a "cmax"), bias := parseRat (getS a "bias"), divisor := parseRat (getS a "div") }
+    fireIf p.check p.exact
+  | "hsw2" :: a => fireIf (More.hardSwishFromSigmoidCheck (parseRat (getS a "alpha")) (parseRat (getS a "beta"))) true
+  | "convaffine" :: a =>
+    fireIf (More.ConvAffine.check { wConst := getBool a "w", bConst := getBool a "b", scaleSingleton := getBool a "s", offsetSingleton := getBool a "o", padsZeroAttr := getS a "pads" != "0" }) true
+  | "dynscatter" :: a => showU (More.dynScatterRun (getOptInt a "axis") (getShape a "data") (getShape a "t")) true
+  | "slicesplit" :: a =>
+    let p : More.SliceSplit := { xShape := getShape a "x", axes0 := getOptInts a "a0", axes1 := getOptInts a "a1", begin0 := getOptInts a "b0", end0 := getOptInts a "e0", begin1 := getOptInts a "b1", end1 := getOptInts a "e1" }
+    let d : Nat := match (getShape a "x").bind List.getLast? with | some (.known n) => n | _ => 0
+    fireIf (More.sliceSplitFires p.check (getBool a "hifirst")) (d % 2 == 0 && getS a "lt18" != "1")
+  | "ccos" :: a =>
+    (match More.castConstantOfShapeRun (getNat a "to") (parseRat (getS a "val")) with
+     | .fire t => s!"fire to={t} hyp=1"
+     | .raises => "raise"
+     | .nofire => "nofire")
   | _ => "badline"
 
 /-- Rules with `remove_nodes=True` whose pattern has an inner node: the matcher (`_valid_to_replace`) rejects the
 match when an inner value is a graph output or has a consumer outside the match — before `check()` runs. -/
 def multiNodeRemoving : List String :=
-  ["clipclip", "cliprelu", "reluclip", "relurelu", "minmax", "castcast", "transtrans", "unsq", "reshape2", "gemm", "bn"]
+  ["clipclip", "cliprelu", "reluclip", "relurelu", "minmax", "castcast", "transtrans", "unsq", "reshape2", "gemm", "bn", "mmreshape", "gemm2mm", "hardsig", "hsw2", "convaffine", "ccos"]
 
 def handle (args : List String) : String :=
   match args with
